@@ -734,6 +734,7 @@ def cli_outstem(repo, res):
         it.overrides["parser.parse_args"] = _PyCall(lambda a=None: xargs)
         it.overrides["pathlib.Path"] = _PyCall(lambda p_: Node("Path", stem=str(p_).rsplit("/", 1)[-1].rsplit(".", 1)[0]))
         it.overrides["re.subn"] = _PyCall(lambda pat, rep, s_: _re.subn(pat, rep, s_))
+        it.overrides["re.sub"] = _PyCall(lambda pat, rep, s_, **k: _re.sub(pat, rep, s_))
         it.overrides["string.ascii_letters"] = _string.ascii_letters
         it.overrides["string.digits"] = _string.digits
         env = {"args": None}
